@@ -378,6 +378,21 @@ def corpus(vf):
         for kind in ('field', 'kernel', 'chain'):
             add('const_scope_let(%d,%s)' % (d, kind), lambda d=d, kind=kind: const_scope_let(d, kind))
 
+    def updatable_value_and_gradient(d, kind):
+        # an updatable input field used by value AND by gradient (Newton linearisation of a quasilinear problem)
+        V = vf.VForm(d); u, v = V.basisfuns(); w = V.input('w', updatable=True)
+        if kind == 'both':
+            V.add(((1 + w * w) * vf.inner(vf.grad(u), vf.grad(v)) + 2 * w * u * vf.inner(vf.grad(w), vf.grad(v))) * vf.dx)
+        elif kind == 'value':
+            V.add((1 + w * w) * u * v * vf.dx)
+        else:
+            g = V.input('g'); V.add((vf.inner(vf.grad(w), vf.grad(v)) * u + g * w * u * v) * vf.dx)
+        return V
+
+    for d in (1, 2):
+        for kind in ('both', 'value', 'grad+other'):
+            add('updatable_value_and_gradient(%d,%s)' % (d, kind), lambda d=d, kind=kind: updatable_value_and_gradient(d, kind))
+
     def let_higher_derivative(d, kind):
         # a let-variable differentiated twice in ONE call (times=2), next to the variable itself and its first derivative
         V = vf.VForm(d, arity=1); v = V.basisfuns(); f = V.input('f'); g = V.input('g')
